@@ -7,6 +7,7 @@ N_CASES = {"quick": 100, "thorough": 600}
 N_SEARCH = {"quick": 1, "thorough": 1}
 SHARD = 160
 HAS_MODEL_OUT = True
+CASES_HEADER = "From DnsV Require Import Model.Reload."
 RULE = ("schedules (lists of thread ids) replayed against the real handler through its verif yield points, on stamped "
         "databases built with the real compilers: every interleaving of one MX query (8 yield steps) with one reload "
         "(5 steps) on cdb for a full switch and for a partial reload after the file was replaced (793 each); every failing "
